@@ -186,10 +186,22 @@ def append (s o : Store P) : R (Store P × Store P) := do
   pure (s, o)
 
 def fromVec (v : Array (Item × P)) : R (Store P) := heapBuild (Store.fromVec v)
-def fromIter (xs : Array (Item × P)) : R (Store P) := heapBuild (Store.fromIter xs)
+/-- `FromIterator::from_iter`: `lo` is the lower bound of the iterator's `size_hint` (the only part the code reads; the
+upper bound is not part of the model): `Store::from_iter` calls `with_capacity_and_hasher(lo)` when `lo > 0`
+(`reserveC 0` is the no-op of the `lo = 0` branch), inserts the pairs `xs` the iterator yields, then `heap_build` -/
+def fromIter (lo : Nat) (xs : Array (Item × P)) : R (Store P) := do
+  reserveC lo
+  heapBuild (Store.fromIter xs)
 /-- `From<DoublePriorityQueue>` -/
 def ofStore (s : Store P) : R (Store P) := heapBuild s
-def deserialize (xs : Array (Item × P)) : R (Store P) := heapBuild (Store.visitSeq xs)
+/-- `Deserialize` (`visit_seq`): `hint` is the length the input ANNOUNCES (`SeqAccess::size_hint`, untrusted), `xs` the
+pairs it actually contains.  The code pre-allocates `with_capacity(min(hint, 4096))` — never the announced length itself —
+then inserts the pairs and rebuilds. -/
+def deserialize (hint : Option Nat) (xs : Array (Item × P)) : R (Store P) := do
+  match hint with
+  | some h => reserveC (min h 4096)
+  | none => pure ()
+  heapBuild (Store.visitSeq xs)
 
 /-- the per-element strategy of `extend` -/
 def pushAll : List (Item × P) → Store P → R (Store P)
@@ -198,8 +210,11 @@ def pushAll : List (Item × P) → Store P → R (Store P)
     let (s, _) ← push s e.1 e.2
     pushAll es s
 
-/-- `Extend::extend`: `lo` is the lower bound of the iterator's `size_hint` (the only part read) -/
-def extend (s : Store P) (lo : Nat) (xs : Array (Item × P)) : R (Store P) :=
+/-- `Extend::extend`: `lo` is the lower bound of the iterator's `size_hint` (the only part read; the upper bound is not
+part of the model), `xs` the pairs the iterator yields.  `self.reserve(lo)` comes first (Rust skips the call when
+`lo = 0`, which `reserveC 0 = ok` covers): an announced lower bound `≥ capLimit` is the capacity-overflow panic. -/
+def extend (s : Store P) (lo : Nat) (xs : Array (Item × P)) : R (Store P) := do
+  reserveC lo
   let rebuild := if lo ≠ 0 then betterToRebuild s.size lo else false
   if rebuild then heapBuild (s.extend xs) else pushAll xs.toList s
 
